@@ -11,7 +11,7 @@
 (* A read-back line is judged per kind: equal to ReadBack(ref) => fine; equal to ReadBack(alt)  *)
 (* => complaint "C22.dev" naming backend and deviation; otherwise "C22.mismatch".  The four     *)
 (* read-backs of one sequence are also compared pairwise (ids aside) => "C22.pairwise".         *)
-EXTENDS Storage, Json, IOUtils, SequencesExt, FiniteSetsExt
+EXTENDS StorageKV, Json, IOUtils, SequencesExt, FiniteSetsExt
 
 Trace   == ndJsonDeserialize(IOEnv.VERIF_TRACE)
 OutFile == IOEnv.VERIF_OUT
